@@ -336,16 +336,12 @@ Section OneArray.
       + rewrite to_list_aux_leaf. cbn [rt].
         replace (Z.of_nat k - 1 + b + 1) with (b + Z.of_nat (length (map rt_leaf (x :: r))))
           by (rewrite map_length, Hlen; lia).
-        rewrite (mapM_zrange_nth _ PNone (map rt_leaf (x :: r))); [reflexivity|].
-        intros j Hj. rewrite map_length in Hj. fold (rd st' (prefix ++ [b + Z.of_nat j])).
+        rewrite (mapM_zrange_nth _ (rt_leaf PNone) (map rt_leaf (x :: r))); [reflexivity|].
+        intros j Hj. rewrite map_length in Hj. rewrite map_nth.
+        fold (rd st' (prefix ++ [b + Z.of_nat j])).
         replace (b + Z.of_nat j) with (0 + Z.of_nat j + b) by lia. rewrite (Hread j Hj).
-        replace PNone with (rt_leaf PNone) at 2
-          by (unfold rt_leaf, from_value; destruct (sigil_of n =? sg_str); [reflexivity|];
-              destruct (sigil_of n =? sg_int); [reflexivity|]; unfold rt_leaf; reflexivity || idtac).
-        2:{ rewrite map_nth. unfold rt_leaf.
-            assert (HP : leafP (nth j (x :: r) PNone)) by (apply Forall_nth; assumption).
-            destruct HP as (_ & sv & Hsv). rewrite Hsv. reflexivity. }
-        admit.
+        assert (HP : leafP (nth j (x :: r) PNone)) by (apply Forall_nth; assumption).
+        destruct HP as (_ & sv & Hsv). unfold rt_leaf. rewrite Hsv. reflexivity.
     - (* nested *)
       assert (Hne' : k2 :: sh'' <> []) by discriminate.
       specialize (IH Hne').
@@ -365,5 +361,179 @@ Section OneArray.
         rewrite (mapM_zrange_nth _ (rt (k2 :: sh'') PNone) (map (rt (k2 :: sh'')) (PList l0 :: r))); [reflexivity|].
         intros j Hj. rewrite map_length in Hj. rewrite map_nth.
         replace (b + Z.of_nat j) with (0 + Z.of_nat j + b) by lia. apply Hread. exact Hj.
-  Admitted.
+  Qed.
 End OneArray.
+
+(* ------------------------------------------------------------------------------------------------ *)
+(* at the level of Session.set_variable / get_variable                                              *)
+
+Lemma rt_nonempty E n sh v : sh <> [] -> shaped E n sh v -> exists x r, rt E n sh v = PList (x :: r).
+Proof.
+  destruct sh as [|k sh']; [contradiction|]. intros _ (items & -> & Hlen & Hk & _).
+  destruct items as [|x r]; [simpl in Hlen; lia|]. cbn [rt map]. eexists. eexists. reflexivity.
+Qed.
+
+(* an array dimensioned to the list's shape (bounds n_k - 1 + base): set_variable succeeds and get_variable
+   returns the list with every leaf replaced by what from_value / to_value make of it *)
+Theorem list_roundtrip E st name base sg b sh v v' elems :
+  array_name name base sg -> 0 <= b -> s_base st = Some b ->
+  alookup (s_arrays st) base = Some (mkArr (dims_of b sh) elems) ->
+  Z.of_nat (length elems) = radix_prod b (dims_of b sh) ->
+  sh <> [] -> to_basic E v = Ok v' -> shaped E base sh v' ->
+  snd (set_variable E st name v) = Ok tt /\
+  get_variable E (fst (set_variable E st name v)) name 0 = Ok (rt E base sh v').
+Proof.
+  intros Hn Hb HB HL Hlen Hne Htb Hsh.
+  pose proof (array_sigil_explicit _ _ _ Hn) as Hs. destruct Hn as ((rest & En) & N1 & N2 & N3).
+  assert (W : WF base b (dims_of b sh) st) by (split; [exact HB | exists elems; split; assumption]).
+  destruct (from_to_list_aux E base b (dims_of b sh) Hb sh Hne v' [] [] st Hsh W eq_refl (Forall2_nil _))
+    as (st' & Hrun & W' & _ & Hread).
+  assert (Hset : set_variable E st name v = (st', Ok tt)).
+  { unfold set_variable. rewrite Hs. cbn [negb]. rewrite Htb. cbn [bindS]. rewrite En, has_paren_app.
+    rewrite before_paren_app by exact N1. unfold from_list. rewrite (base_or0_wf base b _ st W). exact Hrun. }
+  rewrite Hset. cbn [fst snd]. split; [reflexivity|].
+  unfold get_variable. rewrite Hs. cbn [negb]. rewrite En, has_paren_app, before_paren_app by exact N1.
+  destruct W' as [HB' (elems' & HL' & _)].
+  unfold to_list. rewrite HL'. cbn [a_dims]. unfold base_or0. rewrite HB'. rewrite Hread. cbn [bind].
+  destruct (rt_nonempty E base sh v' Hne Hsh) as (x & r & ->). reflexivity.
+Qed.
+
+(* ------------------------------------------------------------------------------------------------ *)
+(* leaves that come back unchanged: the list itself is read back                                    *)
+
+Definition tb_list (E : env) : list pyval -> res (list pyval) :=
+  fix go (l : list pyval) : res (list pyval) :=
+    match l with
+    | [] => Ok []
+    | x :: r => do x' <- to_basic E x; do r' <- go r; Ok (x' :: r')
+    end.
+
+Lemma to_basic_list E l : to_basic E (PList l) = rmap PList (tb_list E l).
+Proof. reflexivity. Qed.
+
+Lemma to_basic_list_id E l : Forall (fun x => to_basic E x = Ok x) l -> to_basic E (PList l) = Ok (PList l).
+Proof.
+  intros H. rewrite to_basic_list. assert (G : tb_list E l = Ok l); [|rewrite G; reflexivity].
+  induction H as [|x r Hx Hr IH]; [reflexivity|].
+  change (tb_list E (x :: r)) with (do x' <- to_basic E x; do r' <- tb_list E r; Ok (x' :: r')).
+  rewrite Hx. cbn [bind]. rewrite IH. reflexivity.
+Qed.
+
+Section FaithfulLeaves.
+  Variable E : env.
+  Variable n : list Z.
+  Variable Q : pyval -> Prop.
+  Hypothesis HQ : forall x, Q x ->
+    (forall l, x <> PList l) /\ to_basic E x = Ok x /\
+    exists sv, from_value E (sigil_of n) x = Ok sv /\ to_value (sigil_of n) sv = x.
+
+  Fixpoint nested (sh : list nat) (v : pyval) {struct sh} : Prop :=
+    match sh with
+    | [] => False
+    | k :: sh' =>
+        exists items, v = PList items /\ length items = k /\ (0 < k)%nat /\
+                      match sh' with
+                      | [] => Forall Q items
+                      | _ :: _ => Forall (nested sh') items
+                      end
+    end.
+
+  Lemma nested_facts : forall sh v, nested sh v ->
+    shaped E n sh v /\ rt E n sh v = v /\ to_basic E v = Ok v.
+  Proof.
+    induction sh as [|k sh' IH]; intros v H; [contradiction|].
+    destruct H as (items & -> & Hlen & Hk & Hitems). destruct sh' as [|k2 sh''].
+    - assert (F1 : Forall (leafP E n) items).
+      { eapply Forall_impl; [|exact Hitems]. intros x Hx. destruct (HQ x Hx) as (A & _ & sv & B & _).
+        split; [exact A | exists sv; exact B]. }
+      assert (F2 : map (rt_leaf E n) items = items).
+      { rewrite <- (map_id items) at 2. apply map_ext_in. intros x Hx.
+        rewrite Forall_forall in Hitems. destruct (HQ x (Hitems x Hx)) as (_ & _ & sv & B & C).
+        unfold rt_leaf. rewrite B. exact C. }
+      assert (F3 : Forall (fun x => to_basic E x = Ok x) items).
+      { eapply Forall_impl; [|exact Hitems]. intros x Hx. destruct (HQ x Hx) as (_ & A & _). exact A. }
+      split; [exists items; repeat split; assumption|]. split; [cbn [rt]; rewrite F2; reflexivity|].
+      apply to_basic_list_id, F3.
+    - assert (G : Forall (fun x => shaped E n (k2 :: sh'') x /\ rt E n (k2 :: sh'') x = x /\ to_basic E x = Ok x) items).
+      { eapply Forall_impl; [|exact Hitems]. intros x Hx. apply IH, Hx. }
+      assert (F1 : Forall (shaped E n (k2 :: sh'')) items) by (eapply Forall_impl; [|exact G]; intros x Hx; apply Hx).
+      assert (F2 : map (rt E n (k2 :: sh'')) items = items).
+      { rewrite <- (map_id items) at 2. apply map_ext_in. intros x Hx.
+        rewrite Forall_forall in G. apply (G x Hx). }
+      assert (F3 : Forall (fun x => to_basic E x = Ok x) items) by (eapply Forall_impl; [|exact G]; intros x Hx; apply Hx).
+      split; [exists items; repeat split; assumption|]. split.
+      { change (rt E n (k :: k2 :: sh'') (PList items)) with (PList (map (rt E n (k2 :: sh'')) items)).
+        rewrite F2. reflexivity. }
+      apply to_basic_list_id, F3.
+  Qed.
+End FaithfulLeaves.
+
+(* integers -32768..32767 in an integer array *)
+Definition int_leaf (x : pyval) : Prop := exists k, x = PInt k /\ in16 k.
+
+Lemma int_leaf_faithful E n : sigil_of n = sg_int -> forall x, int_leaf x ->
+  (forall l, x <> PList l) /\ to_basic E x = Ok x /\
+  exists sv, from_value E (sigil_of n) x = Ok sv /\ to_value (sigil_of n) sv = x.
+Proof.
+  intros Hs x (k & -> & Hk). split; [discriminate|]. split; [reflexivity|].
+  exists (SNum (int_pack k)). rewrite Hs. unfold from_value, to_value.
+  change (sg_int =? sg_str) with false. change (sg_int =? sg_int) with true. cbv iota.
+  rewrite int_from_value_ok by exact Hk. split; [reflexivity|]. rewrite int_unpack_pack by exact Hk. reflexivity.
+Qed.
+
+(* byte strings of at most 255 bytes in a string array *)
+Definition bytes_leaf (x : pyval) : Prop := exists s, x = PBytes s /\ zlen s <= 255.
+
+Lemma bytes_leaf_faithful E n : sigil_of n = sg_str -> forall x, bytes_leaf x ->
+  (forall l, x <> PList l) /\ to_basic E x = Ok x /\
+  exists sv, from_value E (sigil_of n) x = Ok sv /\ to_value (sigil_of n) sv = x.
+Proof.
+  intros Hs x (s & -> & Hk). split; [discriminate|]. split; [reflexivity|].
+  exists (SStr s). rewrite Hs. unfold from_value, to_value. change (sg_str =? sg_str) with true. cbv iota.
+  destruct (255 <? zlen s) eqn:EL; [lia|]. split; reflexivity.
+Qed.
+
+(* to_list (from_list l) = l *)
+Theorem list_roundtrip_faithful E st name base sg b sh v elems (Q : pyval -> Prop) :
+  (forall x, Q x -> (forall l, x <> PList l) /\ to_basic E x = Ok x /\
+                    exists sv, from_value E (sigil_of base) x = Ok sv /\ to_value (sigil_of base) sv = x) ->
+  array_name name base sg -> 0 <= b -> s_base st = Some b ->
+  alookup (s_arrays st) base = Some (mkArr (dims_of b sh) elems) ->
+  Z.of_nat (length elems) = radix_prod b (dims_of b sh) ->
+  sh <> [] -> nested Q sh v ->
+  snd (set_variable E st name v) = Ok tt /\
+  get_variable E (fst (set_variable E st name v)) name 0 = Ok v.
+Proof.
+  intros HQ Hn Hb HB HL Hlen Hne Hv.
+  destruct (nested_facts E base Q HQ sh v Hv) as (Hsh & Hrt & Htb).
+  pose proof (list_roundtrip E st name base sg b sh v v elems Hn Hb HB HL Hlen Hne Htb Hsh) as H.
+  rewrite Hrt in H. exact H.
+Qed.
+
+(* DIM name(dims) on a session that does not know the array yet establishes the hypotheses above *)
+Lemma py_any_false_forall p l : Forall (fun x => p x = false) l -> py_any p l = false.
+Proof. unfold py_any. induction 1 as [|x r Hx Hr IH]; simpl; [reflexivity | rewrite Hx, IH; reflexivity]. Qed.
+
+Theorem dim_establishes st base b dims : 0 <= b -> dims <> [] -> dims_ok b dims ->
+  (s_base st = Some b \/ (s_base st = None /\ b = 0)) -> alookup (s_arrays st) base = None ->
+  exists st', allocate st base dims = (st', Ok tt) /\ s_base st' = Some b /\
+    exists elems, alookup (s_arrays st') base = Some (mkArr dims elems) /\
+                  Z.of_nat (length elems) = radix_prod b dims /\ s_scalars st' = s_scalars st.
+Proof.
+  intros Hb Hne Hok HB HL. destruct dims as [|d0 dr]; [contradiction|]. set (dims := d0 :: dr) in *.
+  assert (Hneg : arrays_allocate_negative dims = Ok tt).
+  { unfold arrays_allocate_negative. rewrite py_any_false_forall; [reflexivity|].
+    eapply Forall_impl; [|exact Hok]. intros x Hx. cbv beta in Hx |- *. lia. }
+  assert (Hbel : arrays_allocate_below_base b dims = Ok tt).
+  { unfold arrays_allocate_below_base. rewrite py_any_false_forall; [reflexivity|].
+    eapply Forall_impl; [|exact Hok]. intros x Hx. cbv beta in Hx |- *. lia. }
+  pose proof (radix_prod_pos b dims Hok) as Hpos.
+  unfold allocate. fold dims. rewrite HL, Hneg. cbn [bindS].
+  destruct HB as [HB|[HB ->]]; rewrite HB; cbn [bindS].
+  - rewrite Hbel. cbn [bindS]. unfold base_or0. rewrite HB. rewrite arrays_flat_length_spec by exact Hok. cbn [bindS].
+    eexists. split; [reflexivity|]. cbn [s_base s_arrays s_scalars]. split; [first [exact HB | reflexivity]|].
+    eexists. split; [apply alookup_aupdate_same|]. split; [|reflexivity]. rewrite repeat_length. lia.
+  - unfold base_or0. cbn [s_base]. rewrite arrays_flat_length_spec by exact Hok. cbn [bindS].
+    eexists. split; [reflexivity|]. cbn [s_base s_arrays s_scalars]. split; [reflexivity|].
+    eexists. split; [apply alookup_aupdate_same|]. split; [|reflexivity]. rewrite repeat_length. lia.
+Qed.
